@@ -854,6 +854,18 @@ pub fn run(cfg: &Cfg) -> Report {
     });
     report.absorb(ctx);
 
+    // (A'') a few larger and extreme shapes (up to 9 rows / columns)
+    let extra_shapes: Vec<(usize, usize)> = vec![(7, 7), (8, 8), (1, 9), (9, 1), (2, 8), (8, 2), (7, 5), (5, 7), (9, 9)];
+    let ctx = par_range(cfg, extra_shapes.len() * cfg.tier.pick(40, 1500), |ctx, k| {
+        let (nr, nc) = extra_shapes[k % extra_shapes.len()];
+        let mut rng = Rng::stream(seed, 0x18_2000_0000 + k as u64);
+        let mag = *rng.pick(&[1i64, 1, 2, 9]);
+        let c = random_case(&mut rng, nr, nc, mag, 2);
+        run_case_all_backends(ctx, &c, digest(&("lax", seed, k)), release, k);
+        ctx.count("extra_shapes");
+    });
+    report.absorb(ctx);
+
     // (A') exhaustive tiny universe: all matrices with entries in {-1,0,1} of shapes up to 2x3 / 3x2
     for (nr, nc) in [(1usize, 1usize), (1, 2), (2, 1), (2, 2), (2, 3), (3, 2), (1, 3), (3, 1)] {
         let cells = nr * nc;
